@@ -287,8 +287,102 @@ impl Deserial for OrderedMapU8U16 {
     }
 }
 
+/// Addresses drawn from a small grid so that keys share an index (or an account prefix) and differ
+/// only in the subindex / last byte.
+fn g_clashing_address(rng: &mut Rng) -> cc::Address {
+    if rng.chance(1, 3) {
+        let mut a = [3u8; 32];
+        a[31] = rng.below(3) as u8;
+        cc::Address::Account(cc::AccountAddress(a))
+    } else {
+        cc::Address::Contract(cc::ContractAddress::new(*rng.pick(&[0u64, 5, u64::MAX]), rng.below(3)))
+    }
+}
+#[derive(Debug, PartialEq)]
+struct OrderedSetAddress(BTreeSet<cc::Address>);
+impl Serial for OrderedSetAddress {
+    fn serial<W: Write>(&self, out: &mut W) -> Result<(), W::Err> { self.0.serial(out) }
+}
+impl Deserial for OrderedSetAddress {
+    fn deserial<R: Read>(source: &mut R) -> cc::ParseResult<Self> {
+        let len: u32 = u32::deserial(source)?;
+        Ok(OrderedSetAddress(cc::deserial_set_no_length(source, len as usize)?))
+    }
+}
+
+/// A value read through `Chain`: the first `cut` permille of the encoding come from one stream, the
+/// rest from a second one; both deliver short counts as the read plan says.
+fn chain_subject() -> Subject {
+    use codeccore::{families::CcReader, subject::DecodeOut};
+    use simcore::faultio::{ReadPlan, SimReader};
+    type T = (u64, Vec<u16>, String, u32);
+    fn gen(r: &mut Rng) -> T { (g_u64(r), g_vec(r, |r| g_u64(r) as u16), g_string(r), g_u64(r) as u32) }
+    fn read_chained(bytes: &[u8], plan: &ReadPlan) -> (cc::ParseResult<T>, usize, simcore::faultio::IoStats) {
+        // split point derived from the content (a replay is a function of the plan alone); the second
+        // stream is never empty when there are bytes at all
+        let k = if bytes.is_empty() { 0 } else { (bytes.iter().map(|b| *b as usize).sum::<usize>() * 7 + 3) % bytes.len() };
+        let (mut p1, mut p2) = (plan.clone(), plan.clone());
+        // A premature end of the *first* stream is not a truncation for a chain (it moves on to the
+        // second stream): an injected end of stream is placed in the second one. A hard error lands
+        // in the stream that holds its position.
+        p1.eof_at = None;
+        p2.eof_at = plan.eof_at.map(|a| if bytes.len() > k { a % (bytes.len() - k) as u64 } else { 0 });
+        match plan.err_at {
+            Some(a) if (a as usize) < k => {
+                p1.err_at = Some(a);
+                p2.err_at = None;
+            }
+            Some(a) => {
+                p1.err_at = None;
+                p2.err_at = Some(a - k as u64);
+            }
+            None => {}
+        }
+        let mut first = CcReader(SimReader::new(&bytes[..k], &p1));
+        let mut second = CcReader(SimReader::new(&bytes[k..], &p2));
+        let res = {
+            let mut ch = cc::Chain::new(&mut first, &mut second);
+            <T as Deserial>::deserial(&mut ch)
+        };
+        let consumed = first.0.consumed() + second.0.consumed();
+        let mut io = first.0.stats;
+        io.short += second.0.stats.short;
+        (res, consumed, io)
+    }
+    let mut s = cc_subject::<T>("(u64,Vec<u16>,String,u32) through Chain", false, gen);
+    s.decode = Box::new(|bytes, plan| {
+        let (res, consumed, io) = read_chained(bytes, plan);
+        DecodeOut {
+            res: res.map(|v| cc::to_bytes(&v)).map_err(|_| "ParseError".to_string()),
+            consumed,
+            io,
+        }
+    });
+    s.typed = Box::new(|seed, plan| {
+        let v = gen(&mut Rng::new(seed));
+        let b = cc::to_bytes(&v);
+        let (res, consumed, _) = read_chained(&b, plan);
+        match res {
+            Ok(v2) if v2 == v && consumed == b.len() => Ok(()),
+            Ok(v2) => Err(format!("value read through a chain of two short-reading streams differs: {:?} vs {:?} ({} of {} bytes)", v2, v, consumed, b.len())),
+            Err(_) => Err("decoding the encoding of a value through a chain of two short-reading streams failed".to_string()),
+        }
+    });
+    s
+}
+
 pub fn cc_subjects() -> Vec<Subject> {
     let mut v: Vec<Subject> = Vec::new();
+    v.push(chain_subject());
+    v.push(cc_subject::<OrderedSetAddress>("deserial_set_no_length<Address>", true, |r| {
+        OrderedSetAddress(g_vec(r, g_clashing_address).into_iter().collect())
+    }));
+    v.push(cc_subject::<BTreeMap<cc::Address, u8>>("BTreeMap<Address,u8>", false, |r| {
+        g_vec(r, |r| (g_clashing_address(r), r.below(256) as u8)).into_iter().collect()
+    }));
+    v.push(cc_subject::<BTreeSet<cc::ContractAddress>>("BTreeSet<ContractAddress>", false, |r| {
+        g_vec(r, |r| cc::ContractAddress::new(*r.pick(&[0u64, 5]), r.below(3))).into_iter().collect()
+    }));
     // primitives (fixed width: every byte string of the right length is the unique encoding)
     v.push(cc_subject::<u8>("u8", true, |r| r.below(256) as u8));
     v.push(cc_subject::<u16>("u16", true, |r| g_u64(r) as u16));
